@@ -113,7 +113,23 @@ func genDL(purpose string) func(t *rapid.T) dlCase {
 			if purpose == "c09" {
 				small = rapid.IntRange(15, 60)
 			}
-			c.Traj = rapid.SliceOfN(rapid.OneOf(small, small, rapid.IntRange(-5, 200)), 1, 12).Draw(t, "traj")
+			el := rapid.OneOf(small, small, rapid.IntRange(-5, 200))
+			if purpose == "c05" {
+				// estimates around the 16 bit boundary and far beyond (AIMD, settable and fixed limits have no ceiling)
+				el = rapid.OneOf(small, small, small, small, rapid.IntRange(-5, 200), rapid.IntRange(-5, 200),
+					rapid.SampledFrom([]int{32767, 32768, 40000, 65535, 65536, 70000, 1 << 20, 1 << 30, math.MaxInt32}))
+			}
+			c.Traj = rapid.SliceOfN(el, 1, 12).Draw(t, "traj")
+			if purpose == "c05" {
+				// the strategy may have been constructed with any limit, also a non-positive one or the very
+				// value the first estimate has
+				switch rapid.IntRange(0, 5).Draw(t, "stratInitKind") {
+				case 0:
+					c.StratInit = c.Traj[0]
+				case 1:
+					c.StratInit = rapid.IntRange(-5, 0).Draw(t, "stratInitNonPos")
+				}
+			}
 		}
 		c.WinSize = rapid.IntRange(10, 15).Draw(t, "winsize")
 		c.WinMin = rapid.SampledFrom([]int64{1_000_000, 2_000_000, 5_000_000, 20_000_000}).Draw(t, "winmin")
@@ -449,7 +465,9 @@ func runDLInBubble(c dlCase, prop string) (out kit.Outcome) {
 				}
 			}
 			if ok {
-				inf := int(b.lim.VerifInFlight())
+				// in-flight at acquire = the calls outstanding, this one included; counted here and not read
+				// back from the limiter, so that a leaking counter cannot hide in the expected windows
+				inf := len(held) + 1
 				held = append(held, dlToken{l: l, key: e.Key, start: time.Since(t0), inflight: inf})
 				perKey[e.Key]++
 			}
